@@ -25,6 +25,10 @@ CHECKS = {
    tech="bounded exhaustive enumeration of values in four syntactic positions, printer -> reader round trip through both syntaxes",
    text="Every atom of length 0..2 (quick) / 0..3 (thorough) alone, as list head, as non-head element and as improper tail, every small tree over a 50-atom alphabet of printer/reader corner cases, and long-atom families, are disassembled under each operator-set version and re-assembled, and (fixed integer mode) printed by the modern printer and re-read by both the modern reader and the classic assembler; each result must be byte-identical. Clause (c), compiler outputs, is checked by the program-level engine when present.",
    note="Trusted: nothing beyond byte equality of harness values; legacy integer mode excluded for the modern printer as the property states."),
+ "C12": dict(engine="dbgmc", cat="model_checking", ref="DESIGN.md 4/C12",
+   tech="explicit-state exploration of the real debugger step function with a per-state denotation invariant against the consensus evaluator",
+   text="The subject is the transition system CldbRun::step/run_step itself. Every (program, environment) of two finite families (all CLVM trees with <= 4 (thorough 5) leaves over a 16-atom alphabet x 3 environments; well-formed nested expressions of depth <= 2 over f r l c + = i a x 2 environments) is stepped from the initial state to termination; in every visited state the continuation stack is reified and evaluated with clvmr and must denote the program's consensus result; every emitted row with operator, arguments and value is re-evaluated with clvmr; row numbering, termination (Final / Throw / Failure) and hex-vs-source equality are checked. All traces are traces of the implementation (no separate model).",
+   note="Trusted: clvmr; row texts are re-read with the modern reader (round trip established by C09). Known findings: F15 (pair in operator position) and F25 (pending `i` operator rows), matched by input class / symptom."),
  "C20": dict(engine="optab", cat="exploration", ref="DESIGN.md 4/C20",
    tech="complete enumeration of the finite operator tables plus one compiled-and-run program per operator",
    text="The property's domain is finite (49 names x 3 versions, 259 opcodes) and is enumerated completely on every run: inverse and monotonicity clauses on the tables, assembler/disassembler per opcode and version, and for each operator a hand-assembled program under the consensus evaluator compared with the tools' runner, the stepping evaluator (4 spellings) and code from the modern (cl21, cl24, optimise on/off) and classic compilers.",
